@@ -167,8 +167,8 @@ def c20(tier):
     r = Result("C20", "exploration", "one evaluation = one value round trip (Message/Codec via 1-7 byte reads/FrameHeader/bincode files), one decode call on arbitrary or mutated bytes inside an allocation-counting scope + catch_unwind (verdict: no panic, no single request > 16 MiB + 4 KiB, header accepted <=> magic & version & type & length predicate), or one `copia delta|patch` run on a hostile file under RLIMIT_AS = 2 GiB and a 60 s watchdog; distinct non-trivial = distinct (decoder or message kind, mutation class or corrupted field, outcome)")
     th = tier == "thorough"
     if not VARIANT:
-        r.merge_vh(run_vh("c20", tier, stage="lib", cases=60000 if th else 5000), "release-lib:")
-        r.merge_vh(run_vh("c20", tier, stage="lib", profile="debug", cases=10000 if th else 1000, sd=dseed()), "debug-lib:")
+        r.merge_vh(run_vh("c20", tier, stage="lib", cases=60000 if th else 5000, alloc_abort="C20|decode|single-allocation-request-above-1GiB-aborted-the-process"), "release-lib:")
+        r.merge_vh(run_vh("c20", tier, stage="lib", profile="debug", cases=10000 if th else 1000, sd=dseed(), alloc_abort="C20|decode|single-allocation-request-above-1GiB-aborted-the-process"), "debug-lib:")
     r.merge_vh(run_vh("c20", tier, stage="cli"), "cli:")
     r.assumptions = ASSUME_LIB + ["RLIMIT_AS = 2 GiB is far above what a valid run on these inputs needs; watchdog expiry is inconclusive, never a violation"]
     if tier == "thorough":
